@@ -439,7 +439,7 @@ pub fn run_hammer<W: std::io::Write>(seed: u64, rounds: u64, out: &mut W) {
     use std::time::{Duration, Instant};
     for r in 0..rounds {
         let mut rng = Rng::new(splitmix(seed.wrapping_mul(32452843).wrapping_add(r)));
-        let kind = ["watermark", "mono", "syncs"][(r % 3) as usize];
+        let kind = ["watermark", "mono", "syncs", "drops", "racing"][(r % 5) as usize];
         let millis = 30 + rng.below(50);
         let readers = 2 + rng.below(2) as usize;
         let stop = Arc::new(AtomicBool::new(false));
@@ -520,6 +520,152 @@ pub fn run_hammer<W: std::io::Write>(seed: u64, rounds: u64, out: &mut W) {
                             }
                         }
                         Err(_) => bad.push("a reader thread panicked".into()),
+                    }
+                }
+            }
+            "drops" => {
+                // instrumented keys and values (process-wide live counters): threads insert, update,
+                // invalidate and read overlapping keys of a small bounded cache; at quiescence the
+                // live key and value objects are exactly the resident entries, after the last handle
+                // is dropped there are none (C11)
+                crate::types::reset_counters();
+                let cap = 4 + rng.below(40);
+                let cache = SCache::<VKey, VVal>::builder().max_capacity(cap)
+                    .build_with_hasher(VBuildHasher(HashKind::Mix));
+                let nthreads = 2 + rng.below(3);
+                let nkeys = 2 + rng.below(cap * 2);
+                let mut hs = Vec::new();
+                for w in 0..nthreads {
+                    let c = cache.clone();
+                    let st = Arc::clone(&stop);
+                    hs.push(std::thread::spawn(move || {
+                        let mut n = 0u64;
+                        while !st.load(Ordering::Relaxed) {
+                            let k = (n * 7 + w * 3) % nkeys;
+                            match (n + w) % 6 {
+                                0 => c.invalidate(&VKey::new(k)),
+                                1 => {
+                                    let _ = c.get(&VKey::new(k));
+                                }
+                                5 if n % 50 == 0 => c.sync(),
+                                _ => c.insert(VKey::new(k), VVal::new(n)),
+                            }
+                            n += 1;
+                        }
+                        n
+                    }));
+                }
+                std::thread::sleep(Duration::from_millis(millis));
+                stop.store(true, Ordering::Relaxed);
+                let t0 = Instant::now();
+                while hs.iter().any(|h| !h.is_finished()) && t0.elapsed() < Duration::from_secs(8) {
+                    std::thread::sleep(Duration::from_millis(5));
+                }
+                if hs.iter().any(|h| !h.is_finished()) {
+                    writeln!(out, "hammer-bad round={} kind={} a thread did not return from a cache call within 8 s after the round ended", r, kind).unwrap();
+                    writeln!(out, "hammer round={} kind={} ops={} bad=1", r, kind, ops).unwrap();
+                    out.flush().unwrap();
+                    std::process::exit(0);
+                }
+                for h in hs {
+                    match h.join() {
+                        Ok(n) => ops += n,
+                        Err(_) => bad.push("a thread panicked inside the cache".into()),
+                    }
+                }
+                if bad.is_empty() {
+                    cache.sync();
+                    cache.sync();
+                    let resident = cache.iter().count() as i64;
+                    let (lk, lv) = (KEY_LIVE.load(Ordering::SeqCst), VAL_LIVE.load(Ordering::SeqCst));
+                    if lk != resident || lv != resident {
+                        bad.push(format!("at quiescence {} key objects and {} value objects are alive for {} resident entries (entry_count {})", lk, lv, resident, cache.entry_count()));
+                    }
+                    drop(cache);
+                    let (lk, lv) = (KEY_LIVE.load(Ordering::SeqCst), VAL_LIVE.load(Ordering::SeqCst));
+                    if lk != 0 || lv != 0 {
+                        bad.push(format!("after the cache was dropped {} key objects and {} value objects are still alive", lk, lv));
+                    }
+                }
+            }
+            "racing" => {
+                // one thread inserts fresh keys, the others overwrite the key it inserted last: the
+                // map step of an update meets the maintenance run that is admitting that key's first
+                // write (the entry's flags and accounted weight have two kinds of writers). At
+                // quiescence the counters must equal the residents (C10).
+                let weighted = rng.chance(1, 2);
+                let mut b = SCache::<u64, u64>::builder();
+                if rng.chance(1, 2) {
+                    b = b.max_capacity(100_000);
+                }
+                if weighted {
+                    b = b.weigher(|_k: &u64, v: &u64| (*v % 4) as u32);
+                }
+                let cache = b.build_with_hasher(VBuildHasher(HashKind::Mix));
+                let latest = Arc::new(AtomicU64::new(0));
+                let mut hs = Vec::new();
+                {
+                    let c = cache.clone();
+                    let st = Arc::clone(&stop);
+                    let l = Arc::clone(&latest);
+                    hs.push(std::thread::spawn(move || {
+                        let mut n = 0u64;
+                        while !st.load(Ordering::Relaxed) && n < 60_000 {
+                            c.insert(n, n);
+                            l.store(n, Ordering::Release);
+                            n += 1;
+                        }
+                        n
+                    }));
+                }
+                for w in 0..(1 + readers as u64) {
+                    let c = cache.clone();
+                    let st = Arc::clone(&stop);
+                    let l = Arc::clone(&latest);
+                    hs.push(std::thread::spawn(move || {
+                        let mut n = 0u64;
+                        while !st.load(Ordering::Relaxed) {
+                            let k = l.load(Ordering::Acquire);
+                            c.insert(k, n * 4 + w);
+                            n += 1;
+                        }
+                        n
+                    }));
+                }
+                std::thread::sleep(Duration::from_millis(millis));
+                stop.store(true, Ordering::Relaxed);
+                let t0 = Instant::now();
+                while hs.iter().any(|h| !h.is_finished()) && t0.elapsed() < Duration::from_secs(8) {
+                    std::thread::sleep(Duration::from_millis(5));
+                }
+                if hs.iter().any(|h| !h.is_finished()) {
+                    writeln!(out, "hammer-bad round={} kind={} a thread did not return from a cache call within 8 s after the round ended", r, kind).unwrap();
+                    writeln!(out, "hammer round={} kind={} ops={} bad=1", r, kind, ops).unwrap();
+                    out.flush().unwrap();
+                    std::process::exit(0);
+                }
+                for h in hs {
+                    match h.join() {
+                        Ok(n) => ops += n,
+                        Err(_) => bad.push("a thread panicked inside the cache".into()),
+                    }
+                }
+                if bad.is_empty() {
+                    let q = std::panic::catch_unwind(std::panic::AssertUnwindSafe(|| {
+                        cache.sync();
+                        cache.sync();
+                        cache.sync();
+                        let resident: Vec<(u64, u64)> = cache.iter().map(|e| (*e.key(), *e.value())).collect();
+                        let wsum: u64 = resident.iter().map(|(_, v)| if weighted { v % 4 } else { 1 }).sum();
+                        (cache.entry_count(), cache.weighted_size(), resident.len() as u64, wsum)
+                    }));
+                    match q {
+                        Ok((ec, ws, n, wsum)) => {
+                            if ec != n || ws != wsum {
+                                bad.push(format!("quiescent counters differ from residents: ec={} ws={} resident={} weight={}", ec, ws, n, wsum));
+                            }
+                        }
+                        Err(_) => bad.push("panic at quiescence".into()),
                     }
                 }
             }
